@@ -1801,7 +1801,7 @@ theorem cinv_step {s s' : Sys} {l : Label} (hinv : Inv s) (hc : CInv s) (hd : di
       have hc1 : CInv { s with core := { s.core.emit (.apiOpen s.core.now) with isOpen := true } } :=
         cinv_core_idle hc hcl h1 (fun h => by rw [h2] at h; cases h) (fun h => by cases h)
       exact cinv_spawnApi_plain (s := { s with core := { s.core.emit (.apiOpen s.core.now) with isOpen := true } })
-        hc1 (SameFlags.refl _) rfl rfl rfl (by simp) (fun h => by cases h)
+        hc1 ⟨rfl, rfl⟩ rfl rfl rfl (by simp) (fun h => by cases h)
   | apiClose =>
     have hcl : closing s.core.trace = false := by simpa [disciplined] using hd
     simp only [step] at h
